@@ -14,7 +14,8 @@ Definition sx_opt {A} (d : sx -> option A) (s : sx) : option (option A) :=
 Definition dec_lname (n : nat) : option lname :=
   match n with
   | 0 => Some LPearson | 1 => Some LLogLik | 2 => Some LFreemanTukey
-  | 3 => Some LModLogLik | 4 => Some LNeyman | 5 => Some LCressieRead | _ => None
+  | 3 => Some LModLogLik | 4 => Some LNeyman | 5 => Some LCressieRead
+  | 6 => Some LFreemanTuckeyDoc | _ => None
   end.
 (* lambda_ argument: () = None ; (0 nameidx) ; (1 (num den)) *)
 Definition dec_larg (s : sx) : option larg :=
